@@ -242,16 +242,20 @@ class Installed:
             self.codes.append((rel[:-3].replace('/', '.'), code, os.path.join(repo, rel)))
 
     def __enter__(self):
-        for name, code, path in self.codes:
-            importlib.import_module(name)                 # make sure the package and the original exist
-            self.saved.append((name, sys.modules[name]))
-            mod = types.ModuleType(name)
-            mod.__file__ = path
-            mod.__package__ = name.rpartition('.')[0]
-            mod.__dict__['_t2rec'] = REC
-            sys.modules[name] = mod
-            exec(code, mod.__dict__)
-            setattr(sys.modules[mod.__package__], name.rpartition('.')[2], mod)
+        try:
+            for name, code, path in self.codes:
+                importlib.import_module(name)                 # make sure the package and the original exist
+                self.saved.append((name, sys.modules[name]))
+                mod = types.ModuleType(name)
+                mod.__file__ = path
+                mod.__package__ = name.rpartition('.')[0]
+                mod.__dict__['_t2rec'] = REC
+                sys.modules[name] = mod
+                exec(code, mod.__dict__)
+                setattr(sys.modules[mod.__package__], name.rpartition('.')[2], mod)
+        except BaseException:
+            self.__exit__()
+            raise
         return self
 
     def __exit__(self, *a):
@@ -455,7 +459,12 @@ def main():
             not_replayed[cls] = problems
             continue
         seeds = [rng.randrange(1 << 30) for _ in range(400)]
-        with inst:
+        try:
+            inst.__enter__()
+        except Exception as ex:  # noqa: BLE001
+            not_replayed[cls] = ['the instrumented modules do not load: %r' % ex]
+            continue
+        try:
             k = 0
             for cfg in configs(cls, rng, wr.get(cls, {}).get('min_agents', 1)):
                 for attempt in range(3):           # a skipped run (NaN, exception) is retried with another seed
@@ -465,12 +474,16 @@ def main():
                         case, why = run_case(inst, dict(cfg))
                     except Abort as ex:
                         case, why = None, 'aborted: %s' % ex
+                    except Exception as ex:  # noqa: BLE001  (building the space / the optimizer failed)
+                        case, why = None, 'exception while building the task: %s' % type(ex).__name__
                     if case is not None:
                         case['plan'] = ['%s:%d:%s' % (os.path.basename(e['file']), e['line'], e['kind']) for e in plan['entries']]
                         cases.append(case)
                         break
                     skipped.setdefault(cls, {})
                     skipped[cls][why] = skipped[cls].get(why, 0) + 1
+        finally:
+            inst.__exit__()
     hlib.emit({'cases': cases, 'skipped': skipped, 'not_replayed': not_replayed, 'errors': errors, 'repo': REPO})
 
 
